@@ -41,9 +41,18 @@ TraceNew ==
 
 QPos2(q) == IF q[1] % q[2] = 0 THEN 2 * (q[1] \div q[2]) ELSE 2 * RFloor(q) + 1
 RateQ(r) == IF r = NaN THEN <<0, 0>> ELSE r
+(* "x2_<rate>" / "x4_<rate>": the rate scaled by 2 / 4 (exact in binary floating point) - the       *)
+(* callables a caller builds on the fly, one per call                                               *)
+Scaled == {"x2_tpr", "x2_fnr", "x2_tnr", "x2_fpr", "x2_topr", "x2_tonr",
+           "x4_tpr", "x4_fnr", "x4_tnr", "x4_fpr", "x4_topr", "x4_tonr"}
+BaseOf(m) == CHOOSE b \in {"tpr", "fnr", "tnr", "fpr", "topr", "tonr"} : m = "x2_" \o b \/ m = "x4_" \o b
 MetricAt(o, m, p) ==
   IF m = "abs_tpr_half"
   THEN RAbs(RSub(RateQ(MetricRate("tpr", CountCM(o, QPos2(p)))), R(1, 2)))
+  ELSE IF m \in Scaled
+  THEN LET r == RateQ(MetricRate(BaseOf(m), CountCM(o, QPos2(p))))
+           w == IF SubSeq(m, 1, 2) = "x2" THEN 2 ELSE 4
+       IN IF r[2] = 0 THEN r ELSE RMul(RInt(w), r)
   ELSE RateQ(MetricRate(m, CountCM(o, QPos2(p))))
 Linspace(a, b, k) == [i \in 1..k |-> RAdd(a, RMul(R(i - 1, k - 1), RSub(b, a)))]
 RECURSIVE InsertSorted(_, _)
